@@ -5,6 +5,7 @@ import re
 from ..engine import forward
 from ..facts import sh, fileline
 from ..report import RuleResult
+from ..forwarders import is_assert_elem
 
 LOCK_TYPES = re.compile(r'std::(lock_guard|unique_lock|scoped_lock)<std::mutex>')
 EXEMPT = {'test_only_iterator': 'documented test-only accessor: hands out an iterator over the unlocked tree (mutex_art.hpp comment)'}
@@ -251,4 +252,56 @@ def mx3(cfg):
         if not ok:
             res.find(f, site['second'], '%s takes the index mutex a second time on one path: the operation is split into two critical sections, so another thread can run between them (e.g. both of two concurrent inserts of the same absent key pass the lookup and both report success)' % f.short, key='MX-3:%s' % f.short, config=cfg.name)
     res.floor('member functions', 20)
+    return res
+
+
+def mx4(cfg):
+    """MX-4: nothing reaches into the wrapped tree after the lock is gone; MX-5: the guard stays in its function"""
+    res = RuleResult('MX-4/5', 'MX-4 no member function of mutex_db returns a reference or pointer (into the wrapped db): every result is a value copied while the lock is held - a reference to live statistics or nodes would be read by the caller after the guard has been destroyed, concurrently with writers (the one view that is handed out, the value of get(), travels with the lock that protects it: MX-2). MX-5 the lock object never leaves its function: it is not captured by a lambda and not passed to another function by reference / pointer (returning it by std::move in get_internal is the one hand-over, MX-2) - a callback that can unlock the guard ends the critical section in the middle of the operation')
+    fns = [f for f in cfg.functions if f.cls.startswith('unodb::mutex_db<') and f.blocks and not f.d.get('lambda') and not (f.d.get('ctor') or f.d.get('dtor') or f.d.get('static'))]
+    for f in fns:
+        res.count('member functions')
+        res.functions.add(f.sig)
+        ret = (f.ret or '').strip()
+        ok = not (ret.endswith('&') or ret.endswith('*') or ret.endswith('&&'))
+        res.ob(ok, {'rule': 'MX-4', 'function': sh(f.sig)[:100], 'returns': sh(ret)[:80], 'verdict': 'discharged' if ok else 'VIOLATION'})
+        if not ok:
+            res.find(f, f.loc, 'mutex_db::%s returns `%s`: a reference / pointer outlives the lock guard of the function, so the caller reads the live data of the wrapped tree (statistics, nodes) without the mutex while writers change it - the snapshot is torn, and the call is no longer one atomic operation' % (f.short, sh(ret)[:80]), key='MX-4:%s' % f.short, config=cfg.name)
+        # MX-5
+        guards = set()
+        for b, i, e in f.elements():
+            if e.get('k') == 'decl':
+                for v in e['vars']:
+                    if LOCK_TYPES.search(v.get('t') or ''):
+                        guards.add(v['did'])
+        if not guards:
+            continue
+        res.count('functions with a guard')
+        esc = []
+        for b, i, e in f.elements():
+            if e.get('k') == 'lambda':
+                for c in e.get('captures', []):
+                    hit = []
+                    f.walk(c, lambda y: hit.append(1) if (y.get('k') == 'ref' and y.get('did') in guards) else None)
+                    if hit:
+                        esc.append((e, 'captured by a lambda'))
+            elif e.get('k') == 'call' and not is_assert_elem(e):
+                cal = e.get('callee') or ''
+                if cal.startswith(('std::unique_lock<', 'std::lock_guard<', 'std::move', 'std::forward')) or e.get('name') in ('move', 'forward'):
+                    continue
+                for a in e.get('args', []):
+                    if f.moved_ref(a):
+                        continue            # std::move(guard): the hand-over of get_internal, judged by MX-2
+                    r = f.ref_of(a)
+                    x = f.strip_casts(a)
+                    if isinstance(x, dict) and x.get('k') == 'unop' and x.get('op') == '&':
+                        r = f.ref_of(x['sub'])
+                    if r and r[0] in guards:
+                        esc.append((e, 'passed to %s' % e.get('name')))
+        ok5 = not esc
+        res.ob(ok5, {'rule': 'MX-5', 'function': sh(f.sig)[:100], 'verdict': 'discharged' if ok5 else 'VIOLATION'})
+        if not ok5:
+            res.find(f, esc[0][0].get('loc'), 'mutex_db::%s: the lock object is %s: code outside this function can unlock it while the operation on the wrapped tree is still running (a scan whose callback releases the mutex lets writers in between two visited entries: the scan sees a state that never existed)' % (f.short, esc[0][1]), key='MX-5:%s' % f.short, config=cfg.name)
+    res.floor('member functions', 20)
+    res.floor('functions with a guard', 15)
     return res
